@@ -1408,7 +1408,7 @@ func TestVerifC16Lottery(t *testing.T) {
 
 	lap("exhaustive")
 	// ---- random layouts
-	n := verifutil.Scale(4000, 120000) / nsh
+	n := verifutil.Scale(4000, 100000) / nsh
 	for i := 0; i < n; i++ {
 		l := c16GenRandom(verifutil.Stream(16, c16PhaseRandom, uint64(i)), false)
 		l.phase, l.index = c16PhaseRandom, i
